@@ -1,6 +1,7 @@
 // C06 part 2: rotations, quaternions, yaw/pitch/roll, slerp, frame, lookat.
 #pragma once
 #include "C06_common.h"
+#include "C06_ops.h"
 
 static const int NAXES = 26, KMAX = 24, NANG = 2 * KMAX + 1, NTRANS = 64;
 
@@ -207,6 +208,7 @@ inline void check_quat(Rep &R, int ai, int k)
     const LD G2[4] = {nq.r, nq.i, nq.j, nq.k}, W2[4] = {qq.r, qq.i, qq.j, qq.k};
     R.cmp(c, "normalize(2q) = q", "", G2, W2, 4, tol);
   }
+  check_quat_ctors<S>(R, c, q);
   check_matrix_from_q(R, c, q, want, qwant);
   // matrix -> quaternion on the reference rotation rounded to S
   check_q_from_matrix<S>(R, c, rndm<S>(want), qwant);
@@ -246,6 +248,7 @@ inline void check_qpair(Rep &R, int ai, int ka, int bi, int kb)
     R.cmpV(c, "(qa*qb)*v = qa*(qb*v)", "", rv((qa * qb) * x), rv(qa * (qb * x)), 3, tolr<S>(1, ref::norm(p)));
     R.cmpV(c, "(qa*qb)*v is rotation b then rotation a", "", rv((qa * qb) * x), ref::app(ref::mul(ref::qmat(a), ref::qmat(b)), p), 3, tolr<S>(1, ref::norm(p)));
   }
+  check_quat_ops<S>(R, c, qa, qb);
   // matrix -> quaternion on the composed rotation
   check_q_from_matrix<S>(R, c, rndm<S>(ref::qmat(ab)), ab);
   // slerp
